@@ -34,6 +34,8 @@ func (r *Reader) ReadMetadata() (err error) {
 		if logLevelInfo() {
 			logInfo().Object("box", b).Send()
 		}
+		// skip the box: the next call starts at the next top-level box
+		err = b.close()
 	}
 	if err != nil && logLevelError() {
 		logError().Object("box", b).Err(err).Send()
